@@ -103,6 +103,9 @@ class BaseSDESolver(metaclass=better_abc.ABCMeta):
                 solver-dependent.
         """
         step_size = self.dt
+        if self.adaptive and step_size < self.dt_min:
+            # The initial step size is a proposal like any later one: no trial step is shorter than `dt_min`.
+            step_size = self.dt_min
 
         prev_t = curr_t = ts[0]
         prev_y = curr_y = y0
